@@ -903,6 +903,44 @@ fn describe_child(c: &ChildResult) -> String {
     )
 }
 
+/// Seam S plan for one run (None: one run in two). Kinds that only perturb *how* a system
+/// call completes (short transfers, EINTR) leave the oracle unchanged; kinds that make it fail
+/// are judged by the relaxed rules in `run`.
+fn gen_io_plan(t: &mut crate::tape::Tape) -> Option<String> {
+    if !t.chance(1, 2) {
+        return None;
+    }
+    let mut items: Vec<String> = Vec::new();
+    if t.chance(1, 2) {
+        items.push(format!("short_write={}", t.pick(&[1u64, 7, 64, 1000, 4096])));
+    }
+    if t.chance(1, 2) {
+        items.push(format!("short_read={}", t.pick(&[1u64, 5, 64, 1024])));
+    }
+    if t.chance(1, 2) {
+        items.push(format!("eintr={}", t.range(2, 5)));
+    }
+    if t.chance(1, 2) || items.is_empty() {
+        match t.draw(4) {
+            0 | 1 => {
+                // where the device fills up is placed relative to the length of the output the
+                // run is going to write (`run` substitutes it): at once, a few bytes before the
+                // end (inside whatever the process still buffers), somewhere in the middle
+                let spec = match t.draw(5) {
+                    0 => "abs:0".to_string(),
+                    1 | 2 => format!("end:{}", t.range(1, 40)),
+                    3 => format!("frac:{}", t.range(0, 999)),
+                    _ => format!("abs:{}", t.range(1, 3000)),
+                };
+                items.push(format!("enospc_after={spec}"));
+            }
+            2 => items.push(format!("eio_read={}", t.range(1, 8))),
+            _ => items.push(format!("open_fail={}", t.range(1, 6))),
+        }
+    }
+    Some(items.join(","))
+}
+
 pub fn run(run: &mut Run) {
     let _ = library();
     let thorough = run.tier == crate::engine::Tier::Thorough;
@@ -935,9 +973,48 @@ pub fn run(run: &mut Run) {
         run.harness(format!("cannot materialise scratch tree: {e}"));
         return;
     }
+    // seam S: system-call faults inside the child (drawn after everything else so that the
+    // scenario part of a tape keeps its meaning)
+    let mut io_plan = if sc.stdout_full { None } else { gen_io_plan(run.tape) };
+    if let Some(p) = io_plan.clone() {
+        if let Some(at) = p.find("enospc_after=") {
+            // length of the output this invocation is going to write, from the library pipeline
+            // on the same tree (only used to place the fault; the verdict uses the reference
+            // computed after the child, as in every other run)
+            let cmd2 = sc.cmd.clone();
+            let root2 = root.clone();
+            let expected_len = match run_process(ProcSpec::new(0x19), move || reference(&root2, &cmd2)) {
+                Ok(ProcExit::Ok(r)) => match &r.result {
+                    Ok(ok) => ok.bytes.len() as u64 + u64::from(sc.cmd.output().is_none() && ok.newline_on_stdout),
+                    Err(_) => 0,
+                },
+                _ => 0,
+            };
+            let spec: String = p[at + "enospc_after=".len()..].chars().take_while(|c| *c != ',').collect();
+            let (mode, n) = spec.split_once(':').unwrap_or(("abs", "0"));
+            let n: u64 = n.parse().unwrap_or(0);
+            let b = match mode {
+                "end" => expected_len.saturating_sub(n),
+                "frac" => expected_len * n / 1000,
+                _ => n,
+            };
+            io_plan = Some(p.replace(&format!("enospc_after={spec}"), &format!("enospc_after={b}")));
+        }
+    }
+    if let Some(p) = &io_plan {
+        run.tape.event(format!("io plan: {p}"));
+    }
+    let report = run.scratch.join(format!("r{}.io", run.index));
     let out_path = sc.cmd.output().cloned();
     let before = snapshot_output(&root, out_path.as_ref());
-    let child = match crate::cli::run_wac_io(&root, &args, hash_seed, 30, sc.stdout_full) {
+    let child = match crate::cli::run_wac_plan(
+        &root,
+        &args,
+        hash_seed,
+        30,
+        sc.stdout_full,
+        io_plan.as_deref().map(|p| (p, report.as_path())),
+    ) {
         Ok(c) => c,
         Err(e) => {
             run.harness(format!("cannot run the wac binary: {e}"));
@@ -946,6 +1023,19 @@ pub fn run(run: &mut Run) {
         }
     };
     let after = snapshot_output(&root, out_path.as_ref());
+    let io_fired: std::collections::BTreeSet<String> = std::fs::read_to_string(&report)
+        .unwrap_or_default()
+        .lines()
+        .map(|l| l.trim().to_string())
+        .filter(|l| !l.is_empty())
+        .collect();
+    let _ = std::fs::remove_file(&report);
+    for k in &io_fired {
+        run.fault(k);
+    }
+    if !io_fired.is_empty() {
+        run.tape.event(format!("io fired: {}", io_fired.iter().cloned().collect::<Vec<_>>().join(" ")));
+    }
     run.tape.event(format!(
         "child: exit={:?} signal={:?} stdout={}B stderr={}B",
         child.code,
@@ -959,6 +1049,56 @@ pub fn run(run: &mut Run) {
         run.cover("cells", format!("{}|crash", sc.cmd.flag_label()));
         let _ = std::fs::remove_dir_all(&root);
         return;
+    }
+
+    // Faults that make a system call *fail* (full device, bad sector, refused open): the
+    // relaxation is narrow. A run that says "success" must still be right in full (checked
+    // below like any other run); a run that fails must say why and, when the fault hit an
+    // input, must leave the output path alone. Nothing else is asked of it.
+    let inv0 = format!("wac {}", args.join(" "));
+    if io_fired.contains("enospc") {
+        run.cover("stages", format!("{}:device-full", sc.cmd.name()));
+        if child.code == Some(0) {
+            run.violate(
+                "exit-mismatch",
+                format!(
+                    "`{inv0}` exited 0 although the device filled up while it was writing its output ({}); {}",
+                    io_plan.clone().unwrap_or_default(),
+                    describe_child(&child)
+                ),
+            );
+        } else if String::from_utf8_lossy(&child.stderr).trim().is_empty() {
+            run.violate(
+                "missing-diagnostic",
+                format!("`{inv0}` failed on a full device but printed no diagnostic; {}", describe_child(&child)),
+            );
+        }
+        let _ = std::fs::remove_dir_all(&root);
+        return;
+    }
+    let input_fault = io_fired.contains("eio_read") || io_fired.contains("open_fail");
+    if input_fault && child.code != Some(0) {
+        run.cover("stages", format!("{}:input-io-error", sc.cmd.name()));
+        if String::from_utf8_lossy(&child.stderr).trim().is_empty() {
+            run.violate(
+                "missing-diagnostic",
+                format!("`{inv0}` failed on an unreadable input but printed no diagnostic; {}", describe_child(&child)),
+            );
+        } else if before != after {
+            run.violate(
+                "outfile-on-failure",
+                format!(
+                    "`{inv0}` failed on an unreadable input but the output path changed: before {:?} bytes, after {:?} bytes",
+                    before.as_ref().map(|b| b.len()),
+                    after.as_ref().map(|b| b.len())
+                ),
+            );
+        }
+        let _ = std::fs::remove_dir_all(&root);
+        return;
+    }
+    if input_fault {
+        run.probe("input_fault_survived");
     }
 
     // reference in a simulated process with the stack the real main thread has
